@@ -723,8 +723,14 @@ func resolveReplay(seed int64) func(i int, raw json.RawMessage) hx.Result {
 				}
 				want = append(want, fmt.Sprintf("(:p%d host=%s sni=%s)", t.Dest.P, c.hp(t.Host.H, t.Host.P), sni))
 			}
-			// the same client is used twice: the second request finds the resolution cached in the tripper
-			cl := fclient.NewClient(fclient.WithWellKnownSRVLookups(true), fclient.WithSkipVerify(true), fclient.WithTimeout(reqTimeout))
+			opts := []fclient.ClientOption{fclient.WithWellKnownSRVLookups(true), fclient.WithSkipVerify(true), fclient.WithTimeout(reqTimeout)}
+			if (seed+int64(i))%2 != 0 {
+				// every other scenario dials through the DNS-cache path (lists that permit everything: without lists
+				// that dialer refuses everything); Host / SNI / order of the targets do not depend on the dial path
+				opts = append(opts, fclient.WithDNSCache(fclient.NewDNSCache(16, time.Minute, []string{"0.0.0.0/0", "::/0"}, nil)))
+				nt += "|dnscache"
+			}
+			cl := fclient.NewClient(opts...) // one client for all three requests
 			// request 0 finds every target dead and must fail (having tried nothing but the prescribed targets, in
 			// order, any number of times); requests 1 and 2 find the last target alive: a failed call is followed
 			// by the same call, and then by a call that finds the resolution cached in the tripper
